@@ -46,6 +46,8 @@ var discardLog = slog.New(slog.NewTextHandler(io.Discard, &slog.HandlerOptions{L
 
 // quiet statistics counters: broker logic never branches on them (only ClientsConnected
 // and ClientsMaximum are read back), so their updates commute with everything.
+//
+//go:norace
 func quietRange(info *system.Info) func(p uintptr) bool {
 	base := uintptr(unsafe.Pointer(info))
 	end := base + unsafe.Sizeof(*info)
@@ -57,6 +59,8 @@ func quietRange(info *system.Info) func(p uintptr) bool {
 }
 
 // New begins an execution replaying prefix and builds the broker.
+//
+//go:norace
 func New(prefix []int, cfg Config) *World {
 	x := zzvrt.Begin(prefix)
 	x.SetExploring(cfg.Exploring)
@@ -102,9 +106,13 @@ func New(prefix []int, cfg Config) *World {
 }
 
 // Explore switches choice recording on (the concurrent part of a scenario starts here).
+//
+//go:norace
 func (w *World) Explore(on bool) { w.X.SetExploring(on) }
 
 // Open creates a connection and spawns the broker's connection handler as a thread.
+//
+//go:norace
 func (w *World) Open() *Conn {
 	c := &Conn{ID: len(w.Conns), X: w.X}
 	w.Conns = append(w.Conns, c)
@@ -115,6 +123,8 @@ func (w *World) Open() *Conn {
 }
 
 // Serve attaches an in-memory listener through the real listeners.Net and calls Serve.
+//
+//go:norace
 func (w *World) Serve() *Listener {
 	l := &Listener{X: w.X}
 	w.Listener = l
@@ -126,6 +136,8 @@ func (w *World) Serve() *Listener {
 }
 
 // Dial queues a new connection on the listener.
+//
+//go:norace
 func (w *World) Dial() *Conn {
 	c := &Conn{ID: len(w.Conns), X: w.X}
 	w.Conns = append(w.Conns, c)
@@ -134,15 +146,23 @@ func (w *World) Dial() *Conn {
 }
 
 // Spawn runs fn as a scheduler thread.
+//
+//go:norace
 func (w *World) Spawn(name string, fn func()) { zzvrt.Go(name, fn) }
 
 // Run runs all threads until none is enabled.
+//
+//go:norace
 func (w *World) Run() { w.X.Run() }
 
 // Now returns the virtual unix time in seconds.
+//
+//go:norace
 func (w *World) Now() int64 { return zzvrt.VirtualEpochUnix + w.X.NowMillis()/1000 }
 
 // Tick advances the clock by ms and lets expired deadlines fire.
+//
+//go:norace
 func (w *World) Tick(ms int64) {
 	w.X.Advance(ms)
 	w.Run()
@@ -150,6 +170,8 @@ func (w *World) Tick(ms int64) {
 
 // Housekeep runs the broker's periodic jobs once at the current virtual time, in the
 // order of the event loop's select cases, as one thread.
+//
+//go:norace
 func (w *World) Housekeep() {
 	now := w.Now()
 	zzvrt.Go("housekeeping", func() {
@@ -162,6 +184,8 @@ func (w *World) Housekeep() {
 }
 
 // End tears the execution down.
+//
+//go:norace
 func (w *World) End() {
 	if !w.ended {
 		w.ended = true
@@ -170,6 +194,8 @@ func (w *World) End() {
 }
 
 // Problems returns runtime-level findings: panics, deadlock, lock misuse.
+//
+//go:norace
 func (w *World) Problems() []string {
 	var out []string
 	for _, e := range w.X.Events {
@@ -200,6 +226,8 @@ type Client struct {
 }
 
 // Connect opens a connection, sends CONNECT and runs to quiescence.
+//
+//go:norace
 func (w *World) Connect(p ref.Packet) *Client {
 	cl := w.Start(p)
 	w.Run()
@@ -207,6 +235,8 @@ func (w *World) Connect(p ref.Packet) *Client {
 }
 
 // Start opens a connection and queues CONNECT without running.
+//
+//go:norace
 func (w *World) Start(p ref.Packet) *Client {
 	c := w.Open()
 	cl := &Client{W: w, C: c, Ver: p.ProtoVer, ID: p.ClientID}
@@ -215,6 +245,8 @@ func (w *World) Start(p ref.Packet) *Client {
 }
 
 // ConnectPacket builds a plain CONNECT.
+//
+//go:norace
 func ConnectPacket(id string, ver byte, clean bool, props ...ref.Prop) ref.Packet {
 	name := "MQTT"
 	if ver == 3 {
@@ -224,12 +256,18 @@ func ConnectPacket(id string, ver byte, clean bool, props ...ref.Prop) ref.Packe
 }
 
 // Send queues a packet from this client (no run).
+//
+//go:norace
 func (cl *Client) Send(p ref.Packet) { cl.C.Send(ref.Encode(p, cl.Ver, ref.EncOpts{})) }
 
 // SendRaw queues raw bytes.
+//
+//go:norace
 func (cl *Client) SendRaw(b []byte) { cl.C.Send(b) }
 
 // Do sends a packet and runs to quiescence, returning newly received packets.
+//
+//go:norace
 func (cl *Client) Do(p ref.Packet) []ref.Packet {
 	cl.Send(p)
 	cl.W.Run()
@@ -237,6 +275,8 @@ func (cl *Client) Do(p ref.Packet) []ref.Packet {
 }
 
 // Poll decodes whatever the broker wrote since the last Poll.
+//
+//go:norace
 func (cl *Client) Poll() []ref.Packet {
 	b := cl.C.Take()
 	if cl.Err != nil {
@@ -254,13 +294,19 @@ func (cl *Client) Poll() []ref.Packet {
 }
 
 // Leftover returns the number of undecoded bytes (an incomplete packet) seen so far.
+//
+//go:norace
 func (cl *Client) Leftover() int { return len(cl.rest) }
 
 // Drop closes the connection from the peer side and runs.
+//
+//go:norace
 func (cl *Client) Drop() {
 	cl.C.PeerClose()
 	cl.W.Run()
 }
 
 // Closed reports whether the broker closed the connection.
+//
+//go:norace
 func (cl *Client) Closed() bool { return cl.C.Closed }
